@@ -590,8 +590,176 @@ def run_arith_witnesses(ctx):
     db.disconnect()
 
 
+# ---------------------------------------------------------------- set semantics of projections: DISTINCT inference, composite keys
+
+def schema3():
+    db = Database()
+    class Dept(db.Entity):
+        number = PrimaryKey(int)
+        name = Required(str)
+        courses = Set('Course')
+    class Course(db.Entity):
+        name = Required(str)
+        semester = Required(int)
+        credits = Required(int)
+        dept = Required(Dept)
+        lessons = Set('Lesson')
+        PrimaryKey(name, semester)
+    class Lesson(db.Entity):
+        course = Required(Course)
+        day = Required(int)
+        room = Required(str)
+        PrimaryKey(course, day)                    # a reference is part of the key (three columns)
+    class Tag(db.Entity):
+        a = Required(int)
+        b = Required(str)
+        c = Required(int)
+        note = Optional(str)
+        PrimaryKey(a, b, c)
+    db.bind('sqlite', ':memory:')
+    db.generate_mapping(create_tables=True)
+    return db, Dept, Course, Lesson, Tag
+
+
+def fill3(rng, Dept, Course, Lesson, Tag):
+    depts = [Dept(number=n, name=rng.choice(['math', 'cs', 'cs'])) for n in rng.sample([1, 2, 3], rng.choice([1, 2, 3]))]
+    courses = []
+    for nm, sem in rng.sample([(n, s_) for n in ('Algebra', 'Biology', 'History') for s_ in (1, 2, 3)], rng.choice([0, 2, 4, 6])):   # repeated partial keys
+        courses.append(Course(name=nm, semester=sem, credits=rng.choice([0, 3, 3, 5]), dept=rng.choice(depts)))
+    for c, day in rng.sample([(c, d_) for c in courses for d_ in (1, 2, 3)], min(len(courses) * 3, rng.choice([0, 3, 5]))):
+        Lesson(course=c, day=day, room=rng.choice(['r1', 'r2']))
+    for a, b, c in rng.sample([(a, b, c) for a in (1, 2) for b in ('x', 'y') for c in (1, 2)], rng.choice([0, 3, 5, 8])):
+        Tag(a=a, b=b, c=c, note=rng.choice(['', 'n', 'n']))
+
+
+# per entity: variable, key attributes, projectable items  (source, python function, item kind for the Lean rule)
+def items3():
+    return {
+        'Course': ('c', ['name', 'semester'], [
+            ('c.name', lambda c: c.name, 'name'), ('c.semester', lambda c: c.semester, 'semester'), ('c.credits', lambda c: c.credits, 'credits'),
+            ('c.dept', lambda c: c.dept, 'dept'), ('c.credits > 0', lambda c: c.credits > 0, None), ('c.semester + 1', lambda c: c.semester + 1, None),
+            ('c.name.upper()', lambda c: c.name.upper(), None), ('c.dept.name', lambda c: c.dept.name, None), ('c', lambda c: c, '*')]),
+        'Lesson': ('l', ['course', 'day'], [
+            ('l.course', lambda l: l.course, 'course'), ('l.day', lambda l: l.day, 'day'), ('l.room', lambda l: l.room, 'room'),
+            ('l.course.name', lambda l: l.course.name, None), ('l.course.semester', lambda l: l.course.semester, None), ('l.day * 2', lambda l: l.day * 2, None),
+            ('l', lambda l: l, '*')]),
+        'Tag': ('t', ['a', 'b', 'c'], [
+            ('t.a', lambda t: t.a, 'a'), ('t.b', lambda t: t.b, 'b'), ('t.c', lambda t: t.c, 'c'), ('t.note', lambda t: t.note, 'note'),
+            ('t.a + t.c', lambda t: t.a + t.c, None), ('t.b + t.note', lambda t: t.b + t.note, None), ('t', lambda t: t, '*')]),
+        'Dept': ('d', ['number'], [
+            ('d.number', lambda d: d.number, 'number'), ('d.name', lambda d: d.name, 'name'), ('len(d.name)', lambda d: len(d.name), None), ('d', lambda d: d, '*')]),
+    }
+
+
+MULTI = [   # (query, python reference) — several iterated entities: `requires_distinct` / `can_affect_distinct`
+    ("select((d.number, c.semester) for d in Dept for c in d.courses)", lambda D, C, L: [(d.number, c.semester) for d in D for c in d.courses]),
+    ("select(c.name for d in Dept for c in d.courses)", lambda D, C, L: [c.name for d in D for c in d.courses]),
+    ("select((d.name, c) for d in Dept for c in d.courses)", lambda D, C, L: [(d.name, c) for d in D for c in d.courses]),
+    ("select(d for d in Dept for c in d.courses if c.credits > 0)", lambda D, C, L: [d for d in D for c in d.courses if c.credits > 0]),
+    ("select(c for d in Dept for c in d.courses if d.name == 'cs')", lambda D, C, L: [c for d in D for c in d.courses if d.name == 'cs']),
+    ("select((d, c.name, c.semester) for d in Dept for c in d.courses)", lambda D, C, L: [(d, c.name, c.semester) for d in D for c in d.courses]),
+    ("select((c, l.day) for c in Course for l in c.lessons)", lambda D, C, L: [(c, l.day) for c in C for l in c.lessons]),
+    ("select((c.name, l.room) for c in Course for l in c.lessons)", lambda D, C, L: [(c.name, l.room) for c in C for l in c.lessons]),
+    ("select((c.name, c.semester, l.day) for c in Course for l in c.lessons)", lambda D, C, L: [(c.name, c.semester, l.day) for c in C for l in c.lessons]),
+    ("select(c.dept for c in Course)", lambda D, C, L: [c.dept for c in C]),
+    ("select(l.course for l in Lesson)", lambda D, C, L: [l.course for l in L]),
+    ("select(l.course.dept for l in Lesson if l.day > 1)", lambda D, C, L: [l.course.dept for l in L if l.day > 1]),
+    ("select((d.name, c.credits) for d in Dept for c in Course if c.dept == d)", lambda D, C, L: [(d.name, c.credits) for d in D for c in C if c.dept == d]),
+    ("select(d.number for d in Dept for c in Course if c.dept == d and c.credits > 0)", lambda D, C, L: [d.number for d in D for c in C if c.dept == d and c.credits > 0]),
+    ("select((l.room, d.name) for d in Dept for c in d.courses for l in c.lessons)", lambda D, C, L: [(l.room, d.name) for d in D for c in d.courses for l in c.lessons]),
+]
+
+
+def run_distinct(ctx, rounds):
+    """Rule used as oracle (docs, 'Automatic DISTINCT'; CHANGELOG #91): a query returns no duplicates — an attribute / expression
+    projection is de-duplicated unless the object itself or its whole primary key is selected (then rows cannot repeat).  So for a
+    query without order_by / without_distinct the result must equal the SET of the Python tuples, as a bag."""
+    rng = ctx.rng
+    ent_items = items3()
+    d_reqs, d_meta = [], []
+    for rd in range(rounds):
+        db, Dept, Course, Lesson, Tag = schema3()
+        ents = {'Dept': Dept, 'Course': Course, 'Lesson': Lesson, 'Tag': Tag}
+        with db_session:
+            fill3(rng, Dept, Course, Lesson, Tag)
+        with db_session:
+            objs = {n: list(E_.select()) for n, E_ in ents.items()}
+            ns = dict(ents); ns.update(select=select, len=len)
+            def check(qsrc, exp_list, forms, tag):
+                exp = sorted(canon2(list(set(exp_list))), key=repr)
+                for form in forms:
+                    ctx.case(['distinct', tag, form, qsrc, rd], kind='distinct:' + tag)
+                    try:
+                        q = eval(qsrc, ns) if form == 'generator' else select(re.match(r'select\((.*)\)$', qsrc, re.S).group(1), ns)
+                        got = sorted(canon2(list(q)), key=repr)
+                    except Exception as ex:
+                        ctx.count('distinct:%s:raises:%s' % (form, type(ex).__name__)); continue
+                    if got != exp:
+                        dup = [g for i, g in enumerate(got) if i and got[i - 1] == g][:2]
+                        ctx.violation('a projection returns duplicates / other rows than the set of the Python tuples (%s form)' % form,
+                                      {'query': qsrc, 'form': form, 'rows in table': {k: len(v) for k, v in objs.items()}},
+                                      observed={'rows': len(got), 'duplicates': dup, 'sql': q.get_sql().split('\n')[0]}, expected={'rows': len(exp)},
+                                      key='projection-set-semantics:%s' % re.sub(r'\s+', ' ', qsrc))
+                    yield form, q
+            for ename, (var, pk, items) in ent_items.items():
+                subsets = []
+                for r_ in (1, 2, 3):
+                    combos = list(itertools.combinations(range(len(items)), r_))
+                    subsets += combos if r_ == 1 else rng.sample(combos, min(len(combos), ctx.scale(6, 30)))
+                for idxs in subsets:
+                    its = [items[i] for i in idxs]
+                    if rng.random() < 0.5: rng.shuffle(its)
+                    cond = rng.choice(['', '', ' if %s is not None' % its[0][0]]) if its[0][2] not in (None, '*') else ''
+                    elt = its[0][0] if len(its) == 1 else '(%s)' % ', '.join(i[0] for i in its)
+                    qsrc = 'select(%s for %s in %s%s)' % (elt, var, ename, cond)
+                    pyl = [(its[0][1](o) if len(its) == 1 else tuple(i[1](o) for i in its)) for o in objs[ename]]
+                    if len(its) == 1 and its[0][2] == '*': continue        # entity query: not a projection
+                    for form, q in check(qsrc, pyl, ('generator', 'string'), ename):
+                        if form == 'string':
+                            d_reqs.append({'op': 'distinct', 'pk': pk, 'items': [i[2] for i in its]})
+                            d_meta.append((qsrc, bool(q._translator.distinct)))
+            D_, C_, L_ = objs['Dept'], objs['Course'], objs['Lesson']
+            for qsrc, ref in MULTI:
+                for _ in check(qsrc, ref(D_, C_, L_), ('generator', 'string'), 'multi'): pass
+        db.disconnect()
+    if ctx.driver.ok:
+        for (qsrc, real), out in zip(d_meta, ctx.driver('C01', d_reqs)):
+            ctx.count('distinct:rule-correspondence-checked'); ctx.count('distinct:real-%s' % ('DISTINCT' if real else 'ALL'))
+            if out.get('distinct') != real:
+                ctx.divergence('model DISTINCT inference differs from translator.distinct', {'query': qsrc}, model=out.get('distinct'), impl=real)
+
+
+def run_subquery_null_witness(ctx):
+    """`x not in (<subquery>)` where the subquery's value is an attribute reached through an OPTIONAL reference: the value is missing
+    when the reference is, but AttrMonad.nullable only looks at the attribute, so no IS NOT NULL guard is added (NOT IN over NULL)"""
+    db = Database()
+    class Grp(db.Entity):
+        students = Set('Stu')
+    class Stu(db.Entity):
+        group = Optional(Grp)
+    db.bind('sqlite', ':memory:'); db.generate_mapping(create_tables=True)
+    with db_session:
+        g1 = Grp(); g2 = Grp(); Stu(group=g1); Stu()
+    key = 'not-in-subquery-attribute-through-optional-reference'
+    ctx.case(['witness', key], kind='witness')
+    with db_session:
+        ns = dict(Grp=Grp, Stu=Stu, select=select)
+        got = sorted(eval('select(g.id for g in Grp if g.id not in (s.group.id for s in Stu))', ns))
+        same = sorted(g.id for g in eval('select(g for g in Grp if g not in (s.group for s in Stu))', ns))
+        exp = sorted(g.id for g in Grp.select() if g.id not in [s.group.id for s in Stu.select() if s.group is not None])
+    if got != exp:
+        ctx.violation('NOT IN over a subquery whose value goes through an optional reference returns no rows when one reference is missing',
+                      {'query': 'select(g.id for g in Grp if g.id not in (s.group.id for s in Stu))', 'data': 'Grp 1, 2; Stu(group=Grp[1]); Stu(group=None)',
+                       'the same query on objects (g not in (s.group for s in Stu))': same},
+                      observed=got, expected=exp, key=key)
+    else: ctx.count('witness-no-longer-fails:' + key)
+    db.disconnect()
+
+
 def run(ctx):
     run_witnesses(ctx)
+    run_subquery_null_witness(ctx)
+    run_distinct(ctx, ctx.scale(3, 30))
     run_arith_witnesses(ctx)
     run_schema2(ctx, ctx.scale(5, 60))
     run_projections(ctx, ctx.scale(60, 800))
